@@ -154,8 +154,8 @@ def tlc(module, cfg, metadir, workers=8, env=None, timeout=1800, java_opts="", e
     e = {}
     if env:
         e.update(env)
-    if java_opts:
-        e["JAVA_TOOL_OPTIONS"] = java_opts
+    # TLC prints non-ASCII characters of strings as '?' unless the JVM's output encoding is UTF-8
+    e["JAVA_TOOL_OPTIONS"] = (java_opts + " -Dfile.encoding=UTF-8 -Dstdout.encoding=UTF-8 -Dsun.stdout.encoding=UTF-8").strip()
     cmd = ["timeout", str(timeout), "tlc", "-workers", str(workers), "-metadir", metadir, "-cleanup",
            "-noGenerateSpecTE", "-config", cfg]
     if coverage:
